@@ -1,10 +1,380 @@
-From Coq Require Import QArith.
-From Asynkit Require Import Base.Prelude Queue.PQ Queue.PosPQ Queue.PosProofs.
-(* placeholder: the loop-level C10 theorems land in Sched/PrioLoopProofs.v; the queue-level facts
-   (class 0 before class 1, insert position, reschedule_all order) are C17_pos_* *)
+(* C10 - Priority loop: most urgent first, FIFO among equals, positions override.
+   Statements only; proofs in Queue/PosList.v, Sched/PrioQueueProofs.v, Sched/PrioLoopProofs.v.
+
+   Model: Sched/Model.v with ready queue [RPos p], p a Queue/PosPQ.v PosPriorityQueue over
+   HPV (the transcription of CPython's heapq).  Vocabulary:
+     PInv HPV p        the queue invariant (Queue/PosProofs.v): heap-ordered array, distinct
+                       sequence numbers below the counter, boost factor 0 (starvation boosting
+                       disabled), every entry positional (class 0, boost 0) or regular (class 1).
+                       It holds in every reachable state of the priority loop (C10_reachable_inv).
+     entry             mkE (mkPV base inserted_at boost class) seq obj ;  obj = handle id
+     entry_lt pv_lt    PriEntry.__lt__ over PriorityValue.__lt__ = the KEY ORDER
+                       (class, base+boost, seq)  - spelled out in C10_key_order
+     plist HPV p       the entries of p sorted by the key order (stable_sort of the array)
+     onat e            the handle id of entry e;  rq_items (RPos p) = map onat (plist HPV p)
+     hcnt s t          number of queued handles that are step/wake-up handles of task t
+                       (<= 1 in every reachable state: C09_inv_prio / C09_inv_meaning) *)
+From Coq Require Import QArith Sorting.Sorted Sorting.Permutation.
+From RecordUpdate Require Import RecordUpdate.
+From Asynkit Require Import Base.Prelude Queue.PQ Queue.PosPQ Queue.PosProofs Queue.PosList Queue.Exec
+     Sched.Model Sched.PartTables Sched.PartitionRun Sched.PrioQueueProofs Sched.PrioLoopProofs.
+Import RecordSetNotations.
+Open Scope nat_scope.
+
+(* the key order: class first, then priority value (base + boost), then arrival sequence *)
+Theorem C10_key_order : forall a b : entry pv,
+  entry_lt pv_lt a b = true <->
+  (pclass (epri a) < pclass (epri b))%Z \/
+  (pclass (epri a) = pclass (epri b) /\
+   (pv_priority (epri a) < pv_priority (epri b) \/
+    (pv_priority (epri a) == pv_priority (epri b) /\ (eseq a < eseq b)%Z)))%Q.
+Proof. exact eltv_spec. Qed.
+Print Assumptions C10_key_order.
+
+(* the invariant is not an assumption: every reachable state of the priority loop (boost
+   factor 0, any program, any environment actions) has a ready queue satisfying it *)
+Theorem C10_reachable_inv :
+  forall draws lks cds nev l,
+    let s0 := init_st true 0 draws lks cds nev in
+    actions_ok s0 l -> exists p, ready (fold_left do_action l s0) = RPos p /\ PInv HPV p.
+Proof. exact reachable_PInv. Qed.
+Print Assumptions C10_reachable_inv.
+
+(* ---- most urgent first ----
+   popleft returns the object of THE minimal entry of the queue for the key order: it is
+   strictly before every other entry.  Exactly that entry leaves the queue. *)
+Theorem C10_pop_min : forall p o p',
+  PInv HPV p -> pos_popleft HPV p = Some (o, p') ->
+  exists e, In e (arr (pq_ p)) /\ eobj e = o /\
+    (forall x, In x (arr (pq_ p)) -> x = e \/ entry_lt pv_lt e x = true) /\
+    Permutation (arr (pq_ p)) (e :: arr (pq_ p')) /\ PInv HPV p'.
+Proof. exact pop_min_queue. Qed.
+Print Assumptions C10_pop_min.
+
+(* ... i.e. a positional (class 0) entry whenever there is one; and among the entries of its
+   class it has the least priority value, the earliest arrival among equals *)
+Theorem C10_pop_min_cases : forall p o p',
+  PInv HPV p -> pos_popleft HPV p = Some (o, p') ->
+  exists e, In e (arr (pq_ p)) /\ eobj e = o /\
+    ((exists x, In x (arr (pq_ p)) /\ pclass (epri x) = 0%Z) -> pclass (epri e) = 0%Z) /\
+    (forall x, In x (arr (pq_ p)) -> pclass (epri x) = pclass (epri e) ->
+       (pv_priority (epri e) <= pv_priority (epri x))%Q /\
+       (pv_priority (epri e) == pv_priority (epri x) -> (eseq e <= eseq x)%Z)).
+Proof. exact pop_min_cases. Qed.
+Print Assumptions C10_pop_min_cases.
+
+(* the scheduler: rq_items is the key-sorted list of the queue's entries, and run_one runs
+   its head (a cancelled handle is popped and skipped) and leaves the tail queued *)
+Theorem C10_run_one_runs_head :
+  (forall p, PInv HPV p ->
+     rq_items (RPos p) = map onat (plist HPV p) /\
+     Permutation (plist HPV p) (arr (pq_ p)) /\
+     StronglySorted (fun a b => entry_lt pv_lt a b = true) (plist HPV p)) /\
+  (forall s p, ready s = RPos p -> PInv HPV p ->
+     match rq_items (ready s) with
+     | [] => run_one s = s
+     | h :: rest =>
+         exists p', PInv HPV p' /\ rq_items (RPos p') = rest /\
+           run_one s = (let s1 := s <| ready := RPos p' |> in
+                        if hcancelled (geth s1 h) then s1 else run_callback (hcb (geth s1 h)) s1)
+     end).
+Proof. split; [exact rq_items_sorted | exact run_one_head]. Qed.
+Print Assumptions C10_run_one_runs_head.
+
+(* ---- the key of a handle is its task's effective priority ----
+   get_priority: effective_priority() for a step / wake-up of a PriorityTask, 0 otherwise;
+   call_soon appends exactly one REGULAR entry (class 1, boost 0) with that base priority,
+   inserted_at = the insertion counter and the next sequence number; nothing else changes *)
+Theorem C10_key_is_effective_priority :
+  (forall s c, handle_priority s c =
+     match c with
+     | HStep t _ | HWakeup t _ => if is_prio_task s t then effective_priority s t else 0%Q
+     | _ => 0%Q
+     end) /\
+  (forall s c p, ready s = RPos p -> PInv HPV p ->
+     let h := length (handles s) in
+     let e := mkE (mkPV (handle_priority s c) (n_ins p) 0 1) (seqn (pq_ p)) (Z.of_nat h) in
+     exists p', call_soon s c = (s <| handles := handles s ++ [mkH c false] |> <| ready := RPos p' |>, h) /\
+       PInv HPV p' /\
+       plist HPV p' = ins_stable HPV e (plist HPV p) /\
+       Permutation (arr (pq_ p')) (e :: arr (pq_ p)) /\
+       Permutation (rq_items (RPos p')) (h :: rq_items (RPos p))).
+Proof. split; [exact handle_priority_spec | exact call_soon_key]. Qed.
+Print Assumptions C10_key_is_effective_priority.
+
+(* task_reschedule (priority inheritance) re-keys the REGULAR entry of a runnable task to its
+   current effective priority - same object, same sequence number, every other entry
+   untouched (so the run order is the key-sorted list of the new multiset) *)
+Theorem C10_reschedule_rekeys : forall s t p e,
+  ready s = RPos p -> PInv HPV p -> hcnt s t <= 1 ->
+  In e (arr (pq_ p)) -> task_key s t (onat e) = true -> pclass (epri e) = 1%Z ->
+  exists p' e' rest,
+    task_reschedule s t = s <| ready := RPos p' |> /\ PInv HPV p' /\
+    Permutation (arr (pq_ p)) (e :: rest) /\ Permutation (arr (pq_ p')) (e' :: rest) /\
+    eobj e' = eobj e /\ eseq e' = eseq e /\ pclass (epri e') = 1%Z /\
+    (pv_priority (epri e') == effective_priority s t)%Q.
+Proof. exact reschedule_rekeys. Qed.
+Print Assumptions C10_reschedule_rekeys.
+
+(* ... and leaves a POSITIONAL entry alone (the F6 repair): the whole state is unchanged, so
+   class, base, sequence number and place in the run order are kept *)
+Theorem C10_positional_keeps_place : forall s t p e,
+  ready s = RPos p -> PInv HPV p -> hcnt s t <= 1 ->
+  In e (arr (pq_ p)) -> task_key s t (onat e) = true -> pclass (epri e) = 0%Z ->
+  task_reschedule s t = s.
+Proof. exact reschedule_positional_keeps_place. Qed.
+Print Assumptions C10_positional_keeps_place.
+
+(* ---- positions override ----
+   (1) in every queue state all positional entries come before all regular entries in the
+       run order;
+   (2) queue_insert_pos(h, k) (used by task_switch / sleep_insert / task_reinsert /
+       task_interrupt after taking the handle out): h and the k entries that were in front
+       of it become positional, in their old order, in front of everything else; the run
+       order is the old one with h inserted at index k (at the end if k > len);
+   (3) call_pos(k, cb) = call_soon; queue_remove; queue_insert_pos does the same with the
+       new handle. *)
+Theorem C10_positional_first :
+  (forall p, PInv HPV p ->
+     exists ps rs, plist HPV p = ps ++ rs /\
+       Forall (fun e => pclass (epri e) = 0%Z) ps /\ Forall (fun e => pclass (epri e) = 1%Z) rs) /\
+  (forall p k h, PInv HPV p ->
+     exists p' news,
+       rq_insert_pos (RPos p) k h = RPos p' /\ PInv HPV p' /\
+       plist HPV p' = news ++ skipn k (plist HPV p) /\
+       Forall (fun e => pclass (epri e) = 0%Z) news /\
+       map onat news = firstn k (rq_items (RPos p)) ++ [h] /\
+       rq_items (RPos p') = insert_nth (rq_items (RPos p)) k h) /\
+  (forall s k c p, ready s = RPos p -> PInv HPV p ->
+     (forall x, In x (rq_items (ready s)) -> x < length (handles s)) ->
+     let h := length (handles s) in
+     exists p' news,
+       call_pos s k c = s <| handles := handles s ++ [mkH c false] |> <| ready := RPos p' |> /\
+       PInv HPV p' /\
+       plist HPV p' = news ++ skipn k (plist HPV p) /\
+       Forall (fun e => pclass (epri e) = 0%Z) news /\
+       map onat news = firstn k (rq_items (RPos p)) ++ [h] /\
+       rq_items (RPos p') = insert_nth (rq_items (RPos p)) k h).
+Proof.
+  split; [exact plist_class_split|]. split; [exact insert_pos_items | exact call_pos_items].
+Qed.
+Print Assumptions C10_positional_first.
+
+(* ---- FIFO among equals: the priority queue IS the list queue ----
+   Riso c rp rl :  rp = RPos p, rl = RList l, PInv HPV p, every object is a handle id, every
+   regular entry has priority value == c, and l is the run order of p.
+   Every ready-queue operation of the scheduler preserves Riso with equal results, provided
+   the priorities handed to append / reschedule are == c and find/remove are used with a key
+   that selects at most one queued handle (the only use the scheduler makes of them: hcnt <= 1,
+   handle ids are queued once). *)
+Theorem C10_equal_is_fifo : forall c : Q,
+  (forall ds, Riso c (RPos (pos_empty 0 ds)) (RList [])) /\
+  (forall rp rl h pr, Riso c rp rl -> pr == c -> Riso c (rq_append rp h pr) (rq_append rl h pr)) /\
+  (forall rp rl, Riso c rp rl ->
+     match rq_popleft rp, rq_popleft rl with
+     | None, None => True
+     | Some (h, rp'), Some (h', rl') => h = h' /\ Riso c rp' rl'
+     | _, _ => False
+     end) /\
+  (forall rp rl k h, Riso c rp rl -> Riso c (rq_insert_pos rp k h) (rq_insert_pos rl k h)) /\
+  (forall rp rl key rm, Riso c rp rl -> cnt key (rq_items rl) <= 1 ->
+     match rq_find rp key rm, rq_find rl key rm with
+     | None, None => True
+     | Some (h, rp'), Some (h', rl') => h = h' /\ Riso c rp' rl'
+     | _, _ => False
+     end) /\
+  (forall rp rl h, Riso c rp rl -> cnt (Nat.eqb h) (rq_items rl) <= 1 ->
+     match rq_remove rp h, rq_remove rl h with
+     | None, None => True
+     | Some rp', Some rl' => Riso c rp' rl'
+     | _, _ => False
+     end) /\
+  (forall rp rl key pr, Riso c rp rl -> pr == c ->
+     rq_reschedule rp key pr = rp /\ rq_reschedule rl key pr = rl) /\
+  (forall p rl, Riso c (RPos p) rl ->
+     Riso c (RPos (snd (pos_iter HPV p))) rl /\ RList (map Z.to_nat (fst (pos_iter HPV p))) = rl) /\
+  (forall rp rl, Riso c rp rl -> rq_items rp = rq_items rl).
+Proof.
+  intros c. split; [exact (Riso_empty c)|]. split; [exact (iso_append c)|].
+  split; [exact (iso_popleft c)|]. split; [exact (iso_insert_pos c)|]. split; [exact (iso_find c)|].
+  split; [exact (iso_remove c)|]. split; [exact (iso_reschedule c)|]. split; [exact (iso_iter c)|].
+  intros [l0|p] [l|p0] HR; try destruct HR. destruct H0. assumption.
+Qed.
+Print Assumptions C10_equal_is_fifo.
+
+(* class 0 beats class 1 whatever the priorities (kept from the first version of this file) *)
 Theorem C10_positional_class_first :
   forall a b : pv, pclass a = 0%Z -> pclass b = 1%Z -> pv_lt a b = true /\ pv_lt b a = false.
 Proof.
   intros a b Ha Hb. unfold pv_lt. rewrite Ha, Hb. simpl. split; reflexivity.
 Qed.
 Print Assumptions C10_positional_class_first.
+
+(* ---- non-vacuity ---- *)
+(* a PriorityTask (priority 1) that does sleep_insert(0), and a plain task *)
+Definition ex10_prog : coro := Call (OSleepInsert 0) (fun _ => Ret 0).
+Definition ex10_actions (n : nat) : list action :=
+  [ASpawn (SPrio 1) ex10_prog; ASpawn SPlain (Ret 1)] ++ repeat AStep n.
+Definition ex10_state (n : nat) : st := fold_left do_action (ex10_actions n) (init_st true 0 [] [] [] 0).
+
+Lemma steps_ok n : forall s, actions_ok s (repeat AStep n).
+Proof. induction n as [|n IH]; intros s; simpl; auto. Qed.
+
+Lemma ex10_actions_ok n : actions_ok (init_st true 0 [] [] [] 0) (ex10_actions n).
+Proof.
+  unfold ex10_actions. cbn [app actions_ok]. split; [|split; [|apply steps_ok]].
+  - simpl. split; auto.
+  - simpl. exact Logic.I.
+Qed.
+
+(* before any step: both step handles are regular entries; the plain task (key 0) is ahead of
+   the PriorityTask (key 1) although it arrived later; C10_reschedule_rekeys applies to task 0 *)
+Example C10_example_regular :
+  rq_items (ready (ex10_state 0)) = [1; 0] /\
+  exists p e, ready (ex10_state 0) = RPos p /\ PInv HPV p /\ hcnt (ex10_state 0) 0 <= 1 /\
+    In e (arr (pq_ p)) /\ task_key (ex10_state 0) 0 (onat e) = true /\ pclass (epri e) = 1%Z /\
+    (pv_priority (epri e) == effective_priority (ex10_state 0) 0)%Q.
+Proof.
+  split; [vm_compute; reflexivity|].
+  unfold ex10_state.
+  destruct (C10_reachable_inv [] [] [] 0 (ex10_actions 0) (ex10_actions_ok 0)) as (p & Er & Hp).
+  set (s := fold_left do_action (ex10_actions 0) (init_st true 0 [] [] [] 0)) in *.
+  exists p. assert (Er' := Er). vm_compute in Er'. injection Er' as Ep.
+  exists (mkE (mkPV 1 0 0 1) 0 0). split; [exact Er|]. split; [exact Hp|].
+  split; [vm_compute; lia|]. split; [rewrite <- Ep; simpl; auto|].
+  split; [vm_compute; reflexivity|]. split; [reflexivity|]. vm_compute. reflexivity.
+Qed.
+
+(* after three steps (plain task; the PriorityTask up to sleep_insert; the reinsert callback)
+   the PriorityTask's step handle (id 3) is a POSITIONAL entry: C10_positional_keeps_place
+   applies, re-prioritising it leaves the state unchanged *)
+Example C10_example_positional :
+  exists p e, ready (ex10_state 3) = RPos p /\ PInv HPV p /\ hcnt (ex10_state 3) 0 <= 1 /\
+    In e (arr (pq_ p)) /\ task_key (ex10_state 3) 0 (onat e) = true /\ pclass (epri e) = 0%Z /\
+    eobj e = 3%Z /\ task_reschedule (ex10_state 3) 0 = ex10_state 3.
+Proof.
+  unfold ex10_state.
+  destruct (C10_reachable_inv [] [] [] 0 (ex10_actions 3) (ex10_actions_ok 3)) as (p & Er & Hp).
+  set (s := fold_left do_action (ex10_actions 3) (init_st true 0 [] [] [] 0)) in *.
+  exists p. assert (Er' := Er). vm_compute in Er'. injection Er' as Ep.
+  exists (mkE (mkPV 0 2 0 0) 0 3).
+  assert (Hc : hcnt s 0 <= 1) by (vm_compute; lia).
+  assert (Hin : In (mkE (mkPV 0 2 0 0) 0 3%Z) (arr (pq_ p))) by (rewrite <- Ep; simpl; auto).
+  assert (Hk : task_key s 0 (onat (mkE (mkPV 0 2 0 0) 0 3%Z)) = true) by (vm_compute; reflexivity).
+  split; [exact Er|]. split; [exact Hp|]. split; [exact Hc|]. split; [exact Hin|].
+  split; [exact Hk|]. split; [reflexivity|]. split; [reflexivity|].
+  exact (C10_positional_keeps_place s 0 p _ Er Hp Hc Hin Hk eq_refl).
+Qed.
+
+(* equal priorities: a priority queue and a list queue driven by the same operations *)
+Example C10_example_fifo :
+  let ops (r : rq) :=
+    let r := rq_append (rq_append (rq_append r 0 0%Q) 1 0%Q) 2 0%Q in
+    let r := rq_insert_pos r 1 3 in
+    let r := match rq_find r (Nat.eqb 1) true with Some (_, r') => r' | None => r end in
+    rq_insert_pos (rq_append r 4 0%Q) 0 1 in
+  Riso 0 (ops (RPos (pos_empty 0 []))) (ops (RList [])) /\
+  rq_items (ops (RPos (pos_empty 0 []))) = [1; 0; 3; 2; 4] /\ ops (RList []) = RList [1; 0; 3; 2; 4].
+Proof.
+  cbv zeta. split; [|split; vm_compute; reflexivity].
+  pose proof (C10_equal_is_fifo 0) as (H0 & Happ & _ & Hins & Hfind & _).
+  assert (Q0 : 0 == 0) by reflexivity.
+  pose proof (Hins _ _ 1 3 (Happ _ _ 2 0%Q (Happ _ _ 1 0%Q (Happ _ _ 0 0%Q (H0 []) Q0) Q0) Q0)) as R1.
+  match type of R1 with Riso _ ?a ?b => set (rp1 := a) in *; set (rl1 := b) in * end.
+  pose proof (Hfind rp1 rl1 (Nat.eqb 1) true R1) as R2.
+  assert (Hc : cnt (Nat.eqb 1) (rq_items rl1) <= 1) by (vm_compute; lia).
+  specialize (R2 Hc).
+  destruct (rq_find rp1 (Nat.eqb 1) true) as [[h rp']|]; destruct (rq_find rl1 (Nat.eqb 1) true) as [[h' rl']|];
+    try contradiction.
+  - destruct R2 as [_ R2]. apply Hins, Happ; auto.
+  - apply Hins, Happ; auto.
+Qed.
+
+(* ---- equal priorities at the scheduler's entry points to the queue ----
+   all_prio0 s: every PriorityTask of s has priority == 0 (plain Tasks and other callbacks are
+   keyed 0 by get_priority anyway).  Then every effective priority and every handle key is 0
+   whatever the lock graph, so on a priority loop sp and a list loop sl with related ready
+   queues: call_soon queues the same handle id at the end of both run orders, and
+   task_reschedule (priority inheritance) is a no-op on both.  Together with C10_equal_is_fifo
+   (popleft / insert_pos / find / remove / iterate) every access the scheduler model makes to
+   its ready queue preserves Riso 0 with equal results. *)
+Theorem C10_equal_priorities_entry_points :
+  (forall s, (forall t, match tprio (gett s t) with Some q => q == 0 | None => True end) ->
+     (forall t, effective_priority s t == 0) /\ (forall c, handle_priority s c == 0)) /\
+  (forall sp sl c,
+     Riso 0 (ready sp) (ready sl) -> length (handles sp) = length (handles sl) -> all_prio0 sp ->
+     Riso 0 (ready (fst (call_soon sp c))) (ready (fst (call_soon sl c))) /\
+     snd (call_soon sp c) = snd (call_soon sl c)) /\
+  (forall sp sl t, Riso 0 (ready sp) (ready sl) -> all_prio0 sp ->
+     task_reschedule sp t = sp /\ task_reschedule sl t = sl).
+Proof.
+  split; [exact equal_prio_keys|]. split; [exact equal_prio_call_soon | exact equal_prio_task_reschedule].
+Qed.
+Print Assumptions C10_equal_priorities_entry_points.
+
+(* ---- ... with starvation boosting enabled (Sched/PrioBoostFifo.v) ----
+   RisoB c rp rl := Riso c (rp with its boost factor set to 0) rl : rp is a PosPriorityQueue
+   with ANY boost factor and ANY random draws whose array satisfies the queue invariant, every
+   regular entry has priority value == c, and rl is its run order.
+   When all regular priorities are equal no entry satisfies the boost condition ("priority
+   strictly greater than the minimum"), so do_maintenance changes nothing and every operation
+   commutes with resetting the factor (do_maintenance_flat, update_counters_zero, *_zero);
+   therefore the isomorphism with the list queue holds for every boost factor - in particular
+   the default one - whatever the history (maintenance runs included). *)
+From Asynkit Require Import Sched.PrioBoostFifo.
+Theorem C10_equal_is_fifo_boosting : forall c : Q,
+  (forall f ds, RisoB c (RPos (pos_empty f ds)) (RList [])) /\
+  (forall s, Forall (fun e => pclass (epri e) = 0%Z \/ pv_priority (epri e) == c) (arr (pq_ s)) ->
+             do_maintenance HPV s = s) /\
+  (forall rp rl h pr, RisoB c rp rl -> pr == c -> RisoB c (rq_append rp h pr) (rq_append rl h pr)) /\
+  (forall rp rl, RisoB c rp rl ->
+     match rq_popleft rp, rq_popleft rl with
+     | None, None => True
+     | Some (h, rp'), Some (h', rl') => h = h' /\ RisoB c rp' rl'
+     | _, _ => False
+     end) /\
+  (forall rp rl k h, RisoB c rp rl -> RisoB c (rq_insert_pos rp k h) (rq_insert_pos rl k h)) /\
+  (forall rp rl key rm, RisoB c rp rl -> cnt key (rq_items rl) <= 1 ->
+     match rq_find rp key rm, rq_find rl key rm with
+     | None, None => True
+     | Some (h, rp'), Some (h', rl') => h = h' /\ RisoB c rp' rl'
+     | _, _ => False
+     end) /\
+  (forall rp rl h, RisoB c rp rl -> cnt (Nat.eqb h) (rq_items rl) <= 1 ->
+     match rq_remove rp h, rq_remove rl h with
+     | None, None => True
+     | Some rp', Some rl' => RisoB c rp' rl'
+     | _, _ => False
+     end) /\
+  (forall rp rl key pr, RisoB c rp rl -> pr == c ->
+     rq_reschedule rp key pr = rp /\ rq_reschedule rl key pr = rl) /\
+  (forall p rl, RisoB c (RPos p) rl ->
+     RisoB c (RPos (snd (pos_iter HPV p))) rl /\ RList (map Z.to_nat (fst (pos_iter HPV p))) = rl) /\
+  (forall rp rl, RisoB c rp rl -> rq_items rp = rq_items rl).
+Proof.
+  intros c. split; [exact (isoB_empty c)|]. split; [exact (do_maintenance_flat c)|].
+  split; [exact (isoB_append c)|]. split; [exact (isoB_popleft c)|].
+  split; [exact (isoB_insert_pos c)|]. split; [exact (isoB_find c)|]. split; [exact (isoB_remove c)|].
+  split; [exact (isoB_reschedule c)|]. split; [exact (isoB_iter c)|].
+  intros rp rl HR. rewrite <- (rq_items_zero rp). unfold RisoB in HR.
+  destruct (zero_rq rp) as [l0|p]; destruct rl as [l|p0]; try destruct HR. destruct H0. assumption.
+Qed.
+Print Assumptions C10_equal_is_fifo_boosting.
+
+(* non-vacuity with the default factor 1/2: 14 appends and 12 pops make update_counters run
+   do_maintenance (threshold max(10, len) + last_maintenance < min(inserted, removed)); the
+   queue and the list stay related and the run order is the arrival order *)
+Example C10_example_boosting :
+  let app (r : rq) (h : nat) := rq_append r h 0%Q in
+  let pop (r : rq) := match rq_popleft r with Some (_, r') => r' | None => r end in
+  let run (r : rq) :=
+    let r := fold_left app (seq 0 14) r in
+    let r := Nat.iter 12 pop r in
+    fold_left app (seq 14 3) r in
+  rq_items (run (RPos (pos_empty (1#2) [1#3; 2#3]))) = [12; 13; 14; 15; 16] /\
+  run (RList []) = RList [12; 13; 14; 15; 16] /\
+  match run (RPos (pos_empty (1#2) [1#3; 2#3])) with
+  | RPos p => (0 < last_maint p)%Z     (* maintenance did run *)
+  | _ => False
+  end.
+Proof. cbv zeta. vm_compute. repeat split; reflexivity. Qed.
